@@ -16,13 +16,13 @@ use rlverif::risinglight::storage::{Storage, StorageImpl, Table, Transaction};
 use rlverif::risinglight::types::*;
 use rlverif::*;
 
-type Dec = <DecimalArray as Array>::Item;
+pub type Dec = <DecimalArray as Array>::Item;
 
 // ---------------------------------------------------------------------------------------------
 // wire format
 // ---------------------------------------------------------------------------------------------
 
-fn enc(v: &DataValue) -> String {
+pub fn enc(v: &DataValue) -> String {
     match v {
         DataValue::Decimal(d) => format!(
             "dec:{}:{}:{}",
@@ -38,13 +38,13 @@ fn enc(v: &DataValue) -> String {
     }
 }
 
-fn mk_dec(neg: bool, m: u128, scale: u32) -> Dec {
+pub fn mk_dec(neg: bool, m: u128, scale: u32) -> Dec {
     let mut d = Dec::from_i128_with_scale(m as i128, scale);
     d.set_sign_negative(neg);
     d
 }
 
-fn mk_interval(months: i32, days: i32, ms: i32) -> Interval {
+pub fn mk_interval(months: i32, days: i32, ms: i32) -> Interval {
     // fields are private: months/days via from_md, ms via from_secs is too coarse -> use Add
     // (Add normalises ms into days only when |ms| >= 1 day; generators keep |ms| < 1 day for
     // values built here, larger ones are built through parsing) -- so use serde instead.
@@ -79,7 +79,7 @@ fn mk_interval(months: i32, days: i32, ms: i32) -> Interval {
     x
 }
 
-fn dec(t: &str) -> DataValue {
+pub fn dec(t: &str) -> DataValue {
     if t == "null" {
         return DataValue::Null;
     }
@@ -142,7 +142,7 @@ fn ord(o: std::cmp::Ordering) -> &'static str {
     }
 }
 
-fn display_of(v: &DataValue) -> Result<String, String> {
+pub fn display_of(v: &DataValue) -> Result<String, String> {
     // the per-type Display (what `get_to_string` / cast-to-string use), not DataValue's `'..'`
     catch(|| match v {
         DataValue::String(s) => s.to_string(),
@@ -184,7 +184,7 @@ fn parse_of(ty: &str, s: &str) -> Result<Result<DataValue, ()>, String> {
     })
 }
 
-fn hex_or_dash(b: &[u8]) -> String {
+pub fn hex_or_dash(b: &[u8]) -> String {
     if b.is_empty() { "-".into() } else { hex(b) }
 }
 
@@ -362,7 +362,7 @@ fn gen_i(r: &mut Rng, lo: i64, hi: i64) -> i64 {
     }
 }
 
-fn gen_f64(r: &mut Rng) -> u64 {
+pub fn gen_f64(r: &mut Rng) -> u64 {
     match r.below(10) {
         0..=4 => *r.pick(F64_SPECIAL),
         5 => (r.range(-4, 4) as f64).to_bits(),
@@ -392,7 +392,7 @@ fn gen_dec(r: &mut Rng) -> DataValue {
     DataValue::Decimal(mk_dec(r.chance(1, 3), m.min(max96), s))
 }
 
-fn gen_val(r: &mut Rng, ty: &str) -> DataValue {
+pub fn gen_val(r: &mut Rng, ty: &str) -> DataValue {
     match ty {
         "bool" => DataValue::Bool(r.chance(1, 2)),
         "i16" => DataValue::Int16(gen_i(r, i16::MIN as i64, i16::MAX as i64) as i16),
